@@ -319,11 +319,17 @@ def _table(ctx, model):
     PARS = ("param", "pars")
     ALLOWED = ("param", "allowed_nonsmoothness")
 
+    cur = [None]            # the function whose row is being judged
+
     def atoms(v):
         # make_f("cos")(*pars)
         if v[0] == "call" and len(v) >= 5 and _fn_name(v[4]) and \
                 v[2] == (("star", PARS),):
             return f"{_fn_name(v[4])}(p)"
+        # func(*pars): the function of the row itself
+        if v[0] == "call" and v[1] == "func" and v[2] == (("star", PARS),) \
+                and cur[0]:
+            return f"{cur[0]}(p)"
         if v == ("index", PARS, 0):
             return "p"
         # make_f("sqrt")(<polynomial in p>) / make_f("log")(2)
@@ -363,6 +369,13 @@ def _table(ctx, model):
                           and c.val[0] == "compare" and c.val[1] == ("Eq",)
                           and c.val[2] == ("param", "func")}
                     cand = (names & yes) if yes else (names - no)
+                    if not yes and not no:
+                        # one result for all of them: judged once per function
+                        # (`func` stands for the function of the row)
+                        for nm_ in sorted(names):
+                            seen.setdefault(nm_, []).append(
+                                (ps, None, _row_of(ps, PARS)[1]))
+                        continue
                     if len(cand) != 1:
                         raise AnalysisError(
                             f"{loc}: a row serves {sorted(names)} and the rule "
@@ -403,11 +416,14 @@ def _table(ctx, model):
                 ctx.ob(f"E/table/{fname}", False, loc,
                        f"math.{fname} is smooth but its rule raises")
                 continue
+            cur[0] = fname
             try:
                 got = _to_rat(ps.retval, atoms)
             except Unsupported as e:
                 raise AnalysisError(f"{loc}: rule for {fname} outside the normal "
                                     f"form's fragment: {e}")
+            finally:
+                cur[0] = None
             want = ref(Rat.atom)
             ok = got.equals(want) and arity == 1
             ctx.ob(f"E/table/{fname}", ok, loc,
